@@ -54,9 +54,11 @@ pub enum KeyId {
     HolderEc2 = 7,
     IssuerRsa = 8,
     IssuerRsa2 = 9,
+    /// the second P-256 holder key once more, its public JWK carrying the optional members (use, key_ops, alg) a key may carry
+    HolderEcOps = 10,
 }
 
-pub const ALL_KEYS: [KeyId; 9] = [KeyId::IssuerEc, KeyId::IssuerEd, KeyId::Hmac1, KeyId::HolderEc, KeyId::HolderEd, KeyId::Hmac2, KeyId::HolderEc2, KeyId::IssuerRsa, KeyId::IssuerRsa2];
+pub const ALL_KEYS: [KeyId; 10] = [KeyId::IssuerEc, KeyId::IssuerEd, KeyId::Hmac1, KeyId::HolderEc, KeyId::HolderEd, KeyId::Hmac2, KeyId::HolderEc2, KeyId::IssuerRsa, KeyId::IssuerRsa2, KeyId::HolderEcOps];
 
 impl KeyId {
     pub fn id(self) -> u64 {
@@ -64,7 +66,7 @@ impl KeyId {
     }
     pub fn fam(self) -> Fam {
         match self {
-            KeyId::IssuerEc | KeyId::HolderEc | KeyId::HolderEc2 => Fam::Ec,
+            KeyId::IssuerEc | KeyId::HolderEc | KeyId::HolderEc2 | KeyId::HolderEcOps => Fam::Ec,
             KeyId::IssuerEd | KeyId::HolderEd => Fam::Ed,
             KeyId::Hmac1 | KeyId::Hmac2 => Fam::Hmac,
             KeyId::IssuerRsa | KeyId::IssuerRsa2 => Fam::Rsa,
@@ -88,7 +90,7 @@ impl KeyId {
             KeyId::IssuerEd => EncodingKey::from_ed_pem(ISSUER_ED_PRIV.as_bytes()).unwrap(),
             KeyId::Hmac1 => EncodingKey::from_secret(b"hmac-secret-number-one-0123456789"),
             KeyId::HolderEc => EncodingKey::from_ec_pem(HOLDER_EC_PRIV.as_bytes()).unwrap(),
-            KeyId::HolderEc2 => EncodingKey::from_ec_pem(HOLDER_EC2_PRIV.as_bytes()).unwrap(),
+            KeyId::HolderEc2 | KeyId::HolderEcOps => EncodingKey::from_ec_pem(HOLDER_EC2_PRIV.as_bytes()).unwrap(),
             KeyId::HolderEd => EncodingKey::from_ed_pem(HOLDER_ED_PRIV.as_bytes()).unwrap(),
             KeyId::Hmac2 => EncodingKey::from_secret(b"another-hmac-secret-9876543210-xyz"),
             KeyId::IssuerRsa => EncodingKey::from_rsa_pem(ISSUER_RSA_PRIV.as_bytes()).unwrap(),
@@ -100,7 +102,7 @@ impl KeyId {
             KeyId::IssuerEc => DecodingKey::from_ec_pem(ISSUER_EC_PUB.as_bytes()).unwrap(),
             KeyId::IssuerEd => DecodingKey::from_ed_pem(ISSUER_ED_PUB.as_bytes()).unwrap(),
             KeyId::Hmac1 => DecodingKey::from_secret(b"hmac-secret-number-one-0123456789"),
-            KeyId::HolderEc | KeyId::HolderEc2 => DecodingKey::from_jwk(&self.jwk().unwrap()).unwrap(),
+            KeyId::HolderEc | KeyId::HolderEc2 | KeyId::HolderEcOps => DecodingKey::from_jwk(&self.jwk().unwrap()).unwrap(),
             KeyId::HolderEd => DecodingKey::from_jwk(&self.jwk().unwrap()).unwrap(),
             KeyId::Hmac2 => DecodingKey::from_secret(b"another-hmac-secret-9876543210-xyz"),
             KeyId::IssuerRsa => DecodingKey::from_rsa_pem(ISSUER_RSA_PUB.as_bytes()).unwrap(),
@@ -112,6 +114,14 @@ impl KeyId {
         match self {
             KeyId::HolderEc => Some(serde_json::from_str(HOLDER_EC_JWK).unwrap()),
             KeyId::HolderEc2 => Some(serde_json::from_str(HOLDER_EC2_JWK).unwrap()),
+            KeyId::HolderEcOps => {
+                let mut v: Value = serde_json::from_str(HOLDER_EC2_JWK).unwrap();
+                v["use"] = json!("sig");
+                v["key_ops"] = json!(["verify"]);
+                v["alg"] = json!("ES256");
+                v["kid"] = json!("holder-key-with-optional-members");
+                Some(serde_json::from_value(v).unwrap())
+            }
             KeyId::HolderEd => Some(serde_json::from_str(HOLDER_ED_JWK).unwrap()),
             _ => None,
         }
@@ -170,6 +180,7 @@ pub fn other_key_same_family(k: KeyId) -> KeyId {
         KeyId::Hmac2 => KeyId::Hmac1,
         KeyId::IssuerRsa => KeyId::IssuerRsa2,
         KeyId::IssuerRsa2 => KeyId::IssuerRsa,
+        KeyId::HolderEcOps => KeyId::HolderEc,
     }
 }
 
